@@ -140,8 +140,8 @@ func runTool(res *core.Result) {
 		res.Violate(core.Violation{Signature: v.Signature, What: v.What, Sub: "tool-roundtrip",
 			Replay: map[string]any{"tool": v.Case}})
 	}
-	note := fmt.Sprintf("makePassword does not support %v; %d make errors; pbkdf2 pairs differing only in trailing NULs observed matching: %d (not demanded); pbkdf2 1-byte-key pairs not demanded: %d (observed matching: %d)",
-		rep.Unsupported, rep.MakeErrors, rep.NulEquiv, rep.ShortKeySkip, rep.ShortKeyHit)
+	note := fmt.Sprintf("makePassword does not support %v; %d make errors; pbkdf2 pairs differing only in trailing NULs observed matching: %d (not demanded); pbkdf2 1-byte-key pairs not demanded: %d (chance collisions, salt-dependent)",
+		rep.Unsupported, rep.MakeErrors, rep.NulEquiv, rep.ShortKeySkip)
 	res.AddSub(core.Sub{Name: "tool-roundtrip", States: rep.Makes, Transitions: rep.Evaluations,
 		Executions: rep.Evaluations, Outcomes: int64(len(rep.Outcomes)),
 		Exhaustive: rep.Exhaustive && rep.MakeErrors == 0 && rep.Makes > 0,
